@@ -319,10 +319,10 @@ def register(reg):
                         got = ev.data.get("sock_timeout")
                         if ev.name == "rt.socket.create_connection":
                             got = c.eng.to_val(c.st, ev.data.get("timeout", NONE))
-                        out.append(("blocking_call_runs_under_the_given_timeout", ("C16",), got.t == want if got is not None else False))
+                        out.append(("blocking_call_runs_under_the_given_timeout", ("C16", "C18"), got.t == want if got is not None else False))
                     else:
                         d = ev.data.get("deadline")
-                        out.append(("awaited_call_runs_under_fail_after_the_given_timeout", ("C16",), d.t == want if d is not None else False))
+                        out.append(("awaited_call_runs_under_fail_after_the_given_timeout", ("C16", "C18"), d.t == want if d is not None else False))
                     if "obj" in ev.data or "sock" in ev.data:
                         o = ev.data.get("obj") or ev.data.get("sock")
                         out.append(("operates_on_own_runtime_stream", ("C02", "C03"), o.t == F(c, c.self, f"{short}.{field}")))
@@ -336,7 +336,7 @@ def register(reg):
                     return []
                 rt = self._rt(c)
                 buf = c.eng.coerce(c.st, c.args["buffer"], "bytes").t
-                return [("whole_buffer_is_handed_to_the_runtime_in_order", ("C03", "C13", "C01"),
+                return [("whole_buffer_is_handed_to_the_runtime_in_order", ("C03", "C13", "C01", "C17"),
                          F(c, rt, "RT.sent") == z3.Concat(F(c, rt, "RT.sent", old=True), buf))]
 
             def loop_invariant(self, c, ordinal):
@@ -345,11 +345,11 @@ def register(reg):
                 # the loop-test variable is the still unsent remainder
                 names = [n for n in c.interp.loop_test_names(ordinal) if isinstance(c.st.env.get(n), VBytes)]
                 if not names:
-                    return [("loop_has_an_unsent_remainder_variable", ("C03", "C13"), False)]
+                    return [("loop_has_an_unsent_remainder_variable", ("C03", "C13", "C17"), False)]
                 rest = c.st.env[names[0]].t
                 rt = self._rt(c)
                 buf = c.eng.coerce(c.st, c.args["buffer"], "bytes").t
-                inv = [("sent_plus_remainder_is_the_buffer", ("C03", "C13", "C01"),
+                inv = [("sent_plus_remainder_is_the_buffer", ("C03", "C13", "C01", "C17"),
                         z3.Concat(F(c, rt, "RT.sent"), rest) == z3.Concat(F(c, rt, "RT.sent", old=True), buf))]
                 pre = []
                 for e in c.trace:
@@ -387,10 +387,14 @@ def register(reg):
                     timed_out = o in ("timeout", "DeadlineCancelled", "TimeoutError", "TooSlowError")
                     if o != "ok":
                         out.append(("exception_class_matches_the_cause", ("C15", "C16"), exc.cls.endswith("Timeout") == timed_out))
+                    if method == "read":
+                        # a clean end of stream is the value b"" (what the protocol layers test for, and what the other two
+                        # back ends return), never a ReadError
+                        out.append(("clean_end_of_stream_is_not_an_error", ("C15", "C18", "C02"), o != "EndOfStream"))
                 if closes_on_failure and exc.cls != "Cancelled" and exc.cls != "DeadlineCancelled":
                     closes = [e for e in c.events("rt.close") if z3.eq(z3.simplify(e.data["obj"].t), z3.simplify(F(c, c.self, f"{short}.{field}")))]
                     closes += c.events("call:" + cls + (".close" if kind == "sync" else ".aclose"))
-                    out.append(("failed_tls_upgrade_closes_the_raw_stream", ("C06",), len(closes) >= 1))
+                    out.append(("failed_tls_upgrade_closes_the_raw_stream", ("C06", "C04"), len(closes) >= 1))
                 return out
 
         M.props = props
@@ -400,15 +404,15 @@ def register(reg):
         M.__name__ = f"M_{short}_{method}"
         return M
 
-    stream_contract(SYNC_STREAM, "SyS", "_sock", "sync", "read", {"rt.sock.recv"}, READ, props=("C16", "C15", "C02"))
-    stream_contract(SYNC_STREAM, "SyS", "_sock", "sync", "write", {"rt.sock.send"}, WRITE, props=("C16", "C15", "C03", "C13", "C01"))
-    stream_contract(SYNC_STREAM, "SyS", "_sock", "sync", "start_tls", {"rt.ssl.wrap_socket"}, CONNECT, props=("C16", "C15", "C06"), closes_on_failure=True)
-    stream_contract(ANYIO_STREAM, "AnS", "_stream", "anyio", "read", {"rt.anyio.receive"}, READ, props=("C16", "C15", "C02"))
-    stream_contract(ANYIO_STREAM, "AnS", "_stream", "anyio", "write", {"rt.anyio.send"}, WRITE, props=("C16", "C15", "C03", "C13", "C01"))
-    stream_contract(ANYIO_STREAM, "AnS", "_stream", "anyio", "start_tls", {"rt.anyio.TLSStream.wrap"}, CONNECT, props=("C16", "C15", "C06"), closes_on_failure=True)
-    stream_contract(TRIO_STREAM, "TrS", "_stream", "trio", "read", {"rt.anyio.receive_some"}, READ, props=("C16", "C15", "C02"))
-    stream_contract(TRIO_STREAM, "TrS", "_stream", "trio", "write", {"rt.anyio.send_all"}, WRITE, props=("C16", "C15", "C03", "C13", "C01"))
-    stream_contract(TRIO_STREAM, "TrS", "_stream", "trio", "start_tls", {"rt.anyio.do_handshake"}, CONNECT, props=("C16", "C15", "C06"), closes_on_failure=True)
+    stream_contract(SYNC_STREAM, "SyS", "_sock", "sync", "read", {"rt.sock.recv"}, READ, props=("C16", "C15", "C02", "C18"))
+    stream_contract(SYNC_STREAM, "SyS", "_sock", "sync", "write", {"rt.sock.send"}, WRITE, props=("C16", "C15", "C03", "C13", "C01", "C17", "C18"))
+    stream_contract(SYNC_STREAM, "SyS", "_sock", "sync", "start_tls", {"rt.ssl.wrap_socket"}, CONNECT, props=("C16", "C15", "C06", "C04", "C18"), closes_on_failure=True)
+    stream_contract(ANYIO_STREAM, "AnS", "_stream", "anyio", "read", {"rt.anyio.receive"}, READ, props=("C16", "C15", "C02", "C18"))
+    stream_contract(ANYIO_STREAM, "AnS", "_stream", "anyio", "write", {"rt.anyio.send"}, WRITE, props=("C16", "C15", "C03", "C13", "C01", "C17", "C18"))
+    stream_contract(ANYIO_STREAM, "AnS", "_stream", "anyio", "start_tls", {"rt.anyio.TLSStream.wrap"}, CONNECT, props=("C16", "C15", "C06", "C04", "C18"), closes_on_failure=True)
+    stream_contract(TRIO_STREAM, "TrS", "_stream", "trio", "read", {"rt.anyio.receive_some"}, READ, props=("C16", "C15", "C02", "C18"))
+    stream_contract(TRIO_STREAM, "TrS", "_stream", "trio", "write", {"rt.anyio.send_all"}, WRITE, props=("C16", "C15", "C03", "C13", "C01", "C17", "C18"))
+    stream_contract(TRIO_STREAM, "TrS", "_stream", "trio", "start_tls", {"rt.anyio.do_handshake"}, CONNECT, props=("C16", "C15", "C06", "C04", "C18"), closes_on_failure=True)
 
     def close_contract(cls, short, field, kind, method):
         @reg.contract
